@@ -21,7 +21,7 @@ try:
     ovf = wt + ".overlay.json"
     json.dump(ov, open(ovf, "w"))
     env = dict(os.environ, VERIF_OVERLAY=ovf)
-    r = subprocess.run(["/verif/run.sh", cid, tier], env=env, text=True, capture_output=True)
+    r = subprocess.run(["/verif/run.sh", cid, tier], env=env, capture_output=True); r.stdout = r.stdout.decode("utf-8", "replace")
     out = r.stdout
     sigs = {}
     for l in out.splitlines():
